@@ -254,9 +254,9 @@ def isWebsocketRequest (r : ReqEv) : Bool :=
   Bytes.lower upgrade == "websocket".b && Bytes.upper r.method == "GET".b
 
 def scopeOf (cfg : Cfg) (r : ReqEv) (ws : Bool) : Scope :=
-  let (path, _, query) := Bytes.partitionB 63 r.target
   { kind := if ws then "websocket" else "http", method := decodeAsciiUpper r.method, version := Bytes.toString r.version,
-    rawPath := path, query := query, headers := if cfg.rawHeaders then r.rawHeaders else r.headers }
+    rawPath := (Bytes.partitionB 63 r.target).1, query := (Bytes.partitionB 63 r.target).2.2,
+    headers := if cfg.rawHeaders then r.rawHeaders else r.headers }
 
 /-- handling of one `next_event()` result (one iteration of the `_handle_events` loop) -/
 def loopTop (cfg : Cfg) (st : St) : St × List Out :=
